@@ -562,6 +562,32 @@ theorem c16_trace_accounts_for_encoding (c : Codec) [h : Traced c] (v : Val) (f 
     (k : Frag) (st : List Frag) : replay (c.trace v) ((f ++ k) :: st) = some (k :: st) :=
   h.law v f he k st
 
+/-- non-vacuity: the trace of a concrete TrStoragePhase value (Grams = VarUInteger 16 with a 4-bit length prefix, a Maybe bit,
+    a 2-bit tag), literally -/
+example : trStoragePhase.trace (.record [("storage_fees_collected", .int 1000), ("storage_fees_due", .unit),
+    ("status_change", .con "acst_frozen" .unit)]) =
+    [.push "storage_fees_collected", .rd "v4" 20, .pop, .push "storage_fees_due", .rd "c" 1, .pop,
+     .push "status_change", .rd "c" 2, .push "$acst_frozen", .pop, .pop] := by decide
+
+/-- … replayed on its 23-bit encoding followed by a 2-bit trailer it leaves exactly the trailer -/
+example : (replay [.push "storage_fees_collected", .rd "v4" 20, .pop, .push "storage_fees_due", .rd "c" 1, .pop,
+     .push "status_change", .rd "c" 2, .push "$acst_frozen", .pop, .pop]
+    [⟨[false,false,true,false, false,false,false,false,false,false,true,true, true,true,true,false,true,false,false,false,
+       false, true,false, true, true], []⟩]).map (·.map (·.bits)) = some [[true, true]] := by decide
+
+/-- … and the replay is discriminating: a script that reads one bit less does NOT leave the trailer -/
+example : (replay [.rd "v4" 19, .rd "c" 1, .rd "c" 2]
+    [⟨[false,false,true,false, false,false,false,false,false,false,true,true, true,true,true,false,true,false,false,false,
+       false, true,false, true, true], []⟩]).map (·.map (·.bits)) ≠ some [[true, true]] := by decide
+
+/-- a reference: the trace of a ShardAccount with `account_none` enters the referenced cell, reads its 1-bit tag and leaves it
+    exhausted; replay fails if the cell had a second bit -/
+example : shardAccount.trace (.record [("account", .con "account_none" .unit), ("last_trans_hash", .bits (List.replicate 256 true)),
+    ("last_trans_lt", .int 5)]) =
+    [.push "account", .enter, .rd "c" 1, .push "$account_none", .pop, .leave, .pop,
+     .push "last_trans_hash", .rd "b" 256, .pop, .push "last_trans_lt", .rd "u" 64, .pop] := by decide
+example : (replay [.enter, .rd "c" 1, .leave] [⟨[], [Cell.mk false [false, true] []]⟩]).isNone = true := by decide
+
 /-- read trace of `bits256` = exact read script of its encoding -/
 @[instance]
 theorem c16_bits256_traced : Traced bits256 := by unfold bits256; infer_instance
